@@ -8,6 +8,7 @@ import Adlt.Net.Drv
 import Adlt.Merge.Drv
 import Adlt.Filter.Drv
 import Adlt.Args.Drv
+import Adlt.Plugins.Drv
 /-! `driver <area>`: reads `case \t implobs` lines on stdin, prints one result line each. -/
 def main (args : List String) : IO UInt32 := do
   let stdin ← IO.getStdin
@@ -24,4 +25,5 @@ def main (args : List String) : IO UInt32 := do
   | ["mrg"] => Util.loop stdin Mrg.doLine; return 0
   | ["flt"] => Util.loop stdin Flt.doLine; return 0
   | ["arg"] => Util.loop stdin Arg.doLine; return 0
+  | ["plg"] => Util.loop stdin Plg.doLine; return 0
   | _ => IO.eprintln "usage: driver <area>"; return 2
